@@ -294,6 +294,14 @@ def small_values(desc, rng, bound):
         return [False, True]
     if desc == 'val':
         return [{'f': float(x).hex()} for x in (0.0, 1.0, -1.5, 2.25)]
+    if desc == 'matrix':
+        # small cost-matrix-like arrays: non-negative entries and inf, no -1 marks
+        out = []
+        for _ in range(60):
+            r, cc = rng.randint(2, bound + 2), rng.randint(2, bound + 2)
+            rows = [[{'f': float(rng.choice([0, 0.5, 1, 1, 2, 3, 4.5, float('inf')])).hex()} for _ in range(cc)] for _ in range(r)]
+            out.append({'n': rows, 'dtype': 'float64', 'shape': [r, cc]})
+        return out
     if desc == 'val+':
         return [{'f': float(x).hex()} for x in (0.3, 0.75, 1.0, 1.5, 2.0, 2.6, 3.2, 4.5, 6.0, 9.0)]
     if desc == 'block':
